@@ -380,6 +380,8 @@ _C20Q = [
     _cfg('c20_routing_movekey_hash_cxx11', 'disp_routing.cpp', {'CFG': 2, 'MAPK': 0}, 'c++11', None, 'C04 MoveKey by value, default (hashed) map', 6, native=('gxx-O0-san', 'gxx-O2', 'clang-O1')),
     _cfg('c20_routing_int_hash_cxx20_O2', 'disp_routing.cpp', {'CFG': 0, 'MAPK': 2}, 'c++20', 'O2', 'C04 int key, unordered_map', 6, native=('gxx-O0-san', 'gxx-O2', 'clang-O1')),
     _cfg('c20_routing_int_gnuc4_cxx17', 'disp_routing.cpp', {'CFG': 0, 'MAPK': 1}, 'c++17', None, 'C04 int key, by-value payload, two listeners per key (one consumes its copy), std::map', 6, gnuc=None, native=('gxx-O0-san', 'gxx-O2', 'clang-O1')),
+    _cfg('c20_heter_include_queue_cxx20_O2', 'heter_include.cpp', {'OBJ': 2}, 'c++20', 'O2', 'C14 include-event heterogeneous queue, move-sensitive key (implicit-move rules differ between -std levels and compilers)', 6, native=('gxx-O0-san', 'gxx-O2', 'clang-O1')),
+    _cfg('c20_heter_include_disp_cxx11_O0', 'heter_include.cpp', {'OBJ': 1}, 'c++11', 'O0', 'C14 include-event heterogeneous dispatcher, move-sensitive key', 6, native=('gxx-O0-san', 'gxx-O2', 'clang-O1')),
     _cfg('c20_routing_policy_map_cxx14_O0', 'disp_routing.cpp', {'CFG': 3, 'MAPK': 1}, 'c++14', 'O0', 'C04 getEvent policy, std::map', 6, native=('gxx-O0-san', 'gxx-O2', 'clang-O1')),
     _cfg('c20_routing_movekey_queue_cxx14', 'disp_routing.cpp', {'CFG': 2, 'MAPK': 1, 'VIAQUEUE': None}, 'c++14', None, 'C04 through an EventQueue (enqueue + process), MoveKey by value, std::map', 6, native=('gxx-O0-san', 'gxx-O2', 'clang-O1')),
     _cfg('c20_routing_policy_queue_cxx11', 'disp_routing.cpp', {'CFG': 3, 'MAPK': 0, 'VIAQUEUE': None}, 'c++11', 'O2', 'C04 through an EventQueue, getEvent policy, default map', 6, native=('gxx-O0-san', 'gxx-O2', 'clang-O1')),
